@@ -110,9 +110,16 @@ Theorem c12_c_nonpos : forall n C Crs, CInv n C Crs ->
 Proof. exact offdiag_c_nonpos. Qed.
 Print Assumptions c12_c_nonpos.
 
-(* ---- fixed_point_self_consistent: a state on which every coordinate update returns the entry already
-        there satisfies the Prinz self-consistency equations for all i, j *)
-Theorem c12_fixed_point_self_consistent : forall n C Crs, CInv n C Crs ->
+(* ---- fixed_point_self_consistent (PARTIAL in one respect).
+        Full statement wanted: for s with Inv n s and positive rows,
+          (forall i j, fst (py_sweep ROps C Crs n s) i j = fst s i j)  ->  Prinz equations for all i, j.
+        Proved: the same conclusion from `is_fixed n C Crs s` = every coordinate update, computed on s
+        itself, returns the entry that is already there.  Missing: the bookkeeping lemma that a whole
+        sweep leaving X unchanged forces every single update inside it to be the identity (each entry
+        is written exactly once per sweep), i.e.  sweep s = s -> is_fixed s.
+        The two hypotheses on C say that every state has a count to another state and every pair of
+        states has a count leaving the pair; both follow from strong connectivity when n >= 3. *)
+Theorem c12_fixed_point_self_consistent_partial : forall n C Crs, CInv n C Crs ->
   forall s, Inv n s -> (forall i, (i < n)%nat -> 0 < snd s i) ->
   (forall i, (i < n)%nat -> 0 < Crs i - C i i) ->
   (forall i j, (i < j < n)%nat -> qa (C i j) (C j i) (Crs i) (Crs j) <> 0) ->
@@ -120,7 +127,17 @@ Theorem c12_fixed_point_self_consistent : forall n C Crs, CInv n C Crs ->
   forall i j, (i < n)%nat -> (j < n)%nat ->
     fst s i j * (Crs i / snd s i + Crs j / snd s j) = C i j + C j i.
 Proof. exact fixed_point_self_consistent. Qed.
-Print Assumptions c12_fixed_point_self_consistent.
+Print Assumptions c12_fixed_point_self_consistent_partial.
+
+(* ---- NOT PROVED (clause "log-likelihood at least that of any other reversible row-stochastic matrix
+        with the same support"): full statement
+          forall P pi', stochastic P -> (forall i j, pi' i * P i j = pi' j * P j i) -> support P = support (C + C^T) ->
+            sum_ij C i j * ln (P i j) <= sum_ij C i j * ln (T_mle i j) + tolerance.
+        What is proved instead is coordinate-wise: each update is the unique positive stationary point
+        of the likelihood in its coordinate (above), and a fixed point satisfies the first-order
+        (Prinz) conditions.  Convergence of the iteration is not proved either.  The harness compares
+        the likelihood of the returned model with the transpose estimate and with sampled / perturbed
+        reversible matrices on every generated input. *)
 
 (* ---- the returned model: T = X / rowsum, pi = X_rs / sum X_rs of any state satisfying the invariant
         with positive rows is row-stochastic, pi is a positive probability vector, and they are in
@@ -160,7 +177,7 @@ Proof. exact residual_is_prinz. Qed.
 Print Assumptions c12_residual_is_prinz.
 
 (* ---- non-vacuity *)
-(* the hypotheses of c12_fixed_point_self_consistent are met by C = [[1,1],[1,1]], X = C + C^T *)
+(* the hypotheses of c12_fixed_point_self_consistent_partial are met by C = [[1,1],[1,1]], X = C + C^T *)
 Example c12_example_fixed_point :
   let C := fun (_ _ : nat) => 1 in let Crs := fun (_ : nat) => 2 in
   let s : state R := (fun _ _ => 2, fun _ => 4) in
